@@ -642,7 +642,7 @@ N_SCEN = {"quick": {"good": (10, 2), "bad": (6, 2)}, "thorough": {"good": (16, 1
 def plan(tier, seed):
     tasks = []
     only = os.environ.get("VF_C47_ONLY", "")  # development aid: "good" or "bad"
-    for grp in ("good", "bad"):
+    for grp in ("bad", "good"):  # the faulty-server scenarios have the shortest event logs: cheap cases first
         if only and grp != only:
             continue
         nt, n = N_SCEN[tier][grp]
